@@ -1,6 +1,9 @@
 """C05 -- text assertions and text transformers mean what the reference manual says (DESIGN.md 3/C05).
 A text is any object satisfying the interface contract I_SSC of C14 (contracts/C14_text_value.py)."""
-import z3
+try:
+    import z3
+except ImportError:      # replays run under the repository's interpreter, without z3
+    z3 = None
 
 from pyvc.api import (Module, Interface, Method, Iface, Inst, Int, Nat, Pos, Bool, Str, Opt, OneOf, Const, Union,
                       ListOf, IterOf, FixedList, Any_, Custom, new_opaque, assume_pred)
